@@ -45,6 +45,19 @@ Section C08.
        e_msg r = if is_empty (e_msg rs) && Qeq_bool (e_grade rs) 0 then wm else e_msg rs).
   Proof. exact (check_is_max_of_single_graders E I X cr). Qed.
 
+  (* the same once more, for the configuration as the author writes it: one grader per value of every
+     alternative (raw_singles), exactly what harness/props/c08.py builds for its `singles` oracle *)
+  Theorem C08_grade_is_max_of_single_alternative_graders_as_written : forall wm (l : list (raw_answer E)) x r,
+    grade_raw cr wm (RTuple l) x = Out (Ret r) ->
+    (forall a rs, In a l -> In rs (raw_singles E a) ->
+       exists r', grade_raw cr [] (RTuple [rs]) x = Out (Ret r') /\ e_grade r' <= e_grade r) /\
+    (exists a rs r', In a l /\ In rs (raw_singles E a) /\ grade_raw cr [] (RTuple [rs]) x = Out (Ret r') /\
+       e_grade r' = e_grade r /\
+       (forall b rs' r'', In b l -> In rs' (raw_singles E b) -> grade_raw cr [] (RTuple [rs']) x = Out (Ret r'') ->
+          e_grade r'' == e_grade r -> (length (e_msg r'') <= length (e_msg r'))%nat) /\
+       e_msg r = if is_empty (e_msg r') && Qeq_bool (e_grade r') 0 then wm else e_msg r').
+  Proof. exact (grade_raw_is_max_of_single_graders E I X cr). Qed.
+
   (* --- independent of the order in which alternatives (and the values of an expect tuple) are listed,
          stated for the configuration as the author writes it --- *)
   Theorem C08_order_independent : forall wm (l l' : list (raw_answer E)) x, raw_reordered l l' ->
